@@ -1689,15 +1689,28 @@ impl Fsm {
                                         if inv.doc_id == invoke_doc_id {
                                             toFinalize.push(inv.finalize);
                                         }
-                                        if inv.autoforward {
-                                            toForward.push(invokeId.clone());
-                                        }
                                     }
                                 }
                             }
                         }
                     }
                 };
+            }
+            {
+                // Every external event, whatever its origin, is forwarded to the running invokes with 'autoforward'.
+                let global = get_global!(datamodel);
+                for (invoke_id, session) in &global.child_sessions {
+                    if let Some(state_id) = session.state_id {
+                        let state = self.get_state_by_id(state_id);
+                        if state
+                            .invoke
+                            .iterator()
+                            .any(|inv| inv.doc_id == session.invoke_doc_id && inv.autoforward)
+                        {
+                            toForward.push(invoke_id.clone());
+                        }
+                    }
+                }
             }
             datamodel.set_event(&externalEvent);
             for finalizeContentId in toFinalize {
